@@ -37,7 +37,21 @@ func main() {
 	only := flag.String("rule", "", "run only this rule id (debug)")
 	verbose := flag.Bool("v", false, "print every obligation")
 	noEvidence := flag.Bool("noevidence", false, "do not write evidence (debug)")
+	dump := flag.String("dump", "", "debug: print the SSA of functions whose name contains this string and exit")
 	flag.Parse()
+	if *dump != "" {
+		w, err := loadWorld(*repo, defaultTags)
+		if err != nil {
+			fmt.Println(err)
+			os.Exit(2)
+		}
+		for _, f := range w.RepoFuncs {
+			if strings.Contains(fname(f), *dump) {
+				f.WriteTo(os.Stdout)
+			}
+		}
+		os.Exit(0)
+	}
 	if *prop == "" {
 		fmt.Fprintln(os.Stderr, "usage: dvidlint -prop C02 [-tier quick|thorough]")
 		os.Exit(2)
